@@ -51,9 +51,9 @@ def gen_direct(rng, long=False):
             if r < 0.86:
                 burst = rng.choice([1, 1, 2, ml, cap, cap + 2])
                 for _ in range(burst):
-                    steps.append(dict(a="w", d=rng.choice([0, frame, frame, d]), ok=rng.random() < 0.9))
+                    steps.append(dict(a="w", d=rng.choice([0, frame, frame, d]), ok=rng.random() < 0.9, sok=rng.random() < 0.8))
             elif r < 0.97:
-                steps.append(dict(a="stop", d=d)); up = False
+                steps.append(dict(a="stop", d=d, sok=rng.random() < 0.7)); up = False
             else:
                 steps.append(dict(a="adv", d=d))
     return dict(mode="direct", cfg=dict(fps=fps, bucket=bucket, minlen=minlen, k=k), steps=steps)
@@ -106,10 +106,10 @@ def gen_proc(rng):
     for i in range(rng.randint(60, 300)):
         r = rng.random()
         if r < 0.01:
-            steps.append(dict(a="reset", d=0))
+            steps.append(dict(a="reset", d=0, sok=rng.random() < 0.7))
         else:
             steps.append(dict(a="frame", d=frame if rng.random() < 0.95 else rng.choice([0, 10 * frame, k * bucket * fps * 2]),
-                              motion=(True if cont else rng.random() < 0.7), ok=rng.random() < 0.97))
+                              motion=(True if cont else rng.random() < 0.7), ok=rng.random() < 0.97, sok=rng.random() < 0.9))
     return dict(mode="proc", cfg=dict(fps=fps, bucket=bucket, k=k, preview=preview, trig=trig, min=mn, max=mx), steps=steps)
 
 
@@ -196,6 +196,14 @@ def run(ctx):
             rp = vlib.save_replay(ctx, t.replace(":", "_"), dict(family="throttle", property=prop, clause=t,
                                   script=scripts[si], event=line - 1 - st0, observed=events[line - 1]))
             violations.append(dict(key=t, replay=rp, what="script %d (%s) event %d" % (si, scripts[si]["origin"], line - 1 - st0)))
+    # ---- witness of known finding F-C06-1 (reported as KNOWN-FINDING while it exists): min-secs + preview-secs = 0
+    if prop == "C06":
+        wit = json.load(open(os.path.join(vlib.VERIF, "findings", "C06-zero-min-length-panic.json")))
+        wtrace = drive(ctx, [wit["script"]], "witness_zero_minlen")
+        if any(e.get("op") == "panic" for e in vlib.read_ndjson(wtrace)):
+            key = "C06:throttle-construction-panics[min-secs+preview-secs=0]"
+            rp = vlib.save_replay(ctx, "C06_zero_min_length", dict(wit, observed=[e for e in vlib.read_ndjson(wtrace)]))
+            violations.append(dict(key=key, replay=rp, what="NewThrottledRecorderWithClock panics for a minimum recording length of 0 s"))
     # ---- wiring in cmd/thermal-recorder/main.go with the real clock (one-sided, generous margins)
     import fam_e2e
     binp = ctx.go_test_build("./cmd/thermal-recorder", "tr.test")
